@@ -4,6 +4,8 @@ import "verifharness/internal/rt"
 
 func init() {
 	p := Registry["C17"]
+	p.Roles["firstwrites"] = Role{N: func(t string) int { return tierN(t, 4, 48) }, Case: c05FreshStart}
+	p.Rule += " Role firstwrites (C05's role freshstart, here for the clause 'every root always offers a directory to write to'): the very first writes into brand-new databases, 2-12 at once released by a spin barrier, while no root has a directory yet: every one of them must succeed."
 	p.Roles["offers"] = Role{N: func(t string) int { return tierN(t, 4, 96) }, Case: func(tier string, seed int64, idx int, scratch string) rt.CaseResult {
 		return c06RotationWindow(seed, idx, scratch)
 	}}
